@@ -270,7 +270,6 @@ EXPORT wchar_t *_wcstok_s_chk(wchar_t *restrict dest, rsize_t *restrict dmaxp,
         if (unlikely(dlen == 0)) {
             *ptr = NULL;
             *dmaxp = 0;
-            *dest = L'\0';
             invoke_safe_str_constraint_handler("wcstok_s: dest is unterminated",
                                                (void *)orig_dest, ESUNTERM);
             errno = ESUNTERM;
@@ -326,7 +325,6 @@ EXPORT wchar_t *_wcstok_s_chk(wchar_t *restrict dest, rsize_t *restrict dmaxp,
         if (unlikely(dlen == 0)) {
             *ptr = NULL;
             *dmaxp = 0;
-            *dest = L'\0';
             invoke_safe_str_constraint_handler("wcstok_s: dest is unterminated",
                                                (void *)orig_dest, ESUNTERM);
             errno = ESUNTERM;
